@@ -142,6 +142,12 @@ def gaussNew (t0 σ tol : F) : Gauss F :=
   let g0 : Gauss F := { tStart := t0 - dt, tStop := t0 + dt, sigma := σ, tol := tol }
   gaussSetSigma (gaussSetT0 g0 t0) σ
 
+/-- `GaussianTimeFluxProfile(t0, sigma_t, tol)` with the domain of the constructor made explicit:
+for `tol` outside `(0,1)` (`log tol` not negative / undefined) or `sigma_t = 0` the code produces a NaN
+or zero-width window and NaN integrals — `none` here. -/
+def gaussNewChecked [BEq F] (t0 σ tol : F) : Option (Gauss F) :=
+  if 0 < tol ∧ tol < 1 ∧ !(σ == 0) then some (gaussNew t0 σ tol) else none
+
 /-- the gaussian shape `exp(-(t-t0)^2 / (2 sigma^2))` with the operation order of the code -/
 def gaussShape (g : Gauss F) (t : F) : F :=
   let s := g.sigma
@@ -377,6 +383,14 @@ def Heap.shallowCopy (h : Heap F) (i : Nat) : Option (Heap F × Nat) :=
   | some c => some (h ++ [c], h.length)
   | none => none
 
+/-- `move(dt, unit)`: `dt * unit.to(self._time_unit)` when a different unit is given -/
+def Heap.moveU (h : Heap F) (i : Nat) (dt : F) (u : Option F) : Option (Heap F) :=
+  h.move i (conv dt u)
+
+/-- `MathFunction.copy(newparams)`: deepcopy, then `set_params(newparams)` **on the copy** -/
+def Heap.copySet (pn : ParamNames) (h : Heap F) (i : Nat) (pd : PDict F) : Option (Heap F × Nat) :=
+  (h.copy i).map fun r => ((r.1.setParams pn r.2 pd).1, r.2)
+
 /-- everything observable about object `i`: its own cell and the cells it refers to -/
 def Heap.view (h : Heap F) (i : Nat) : List (Option (Cell F)) :=
   (targets h i).map (h[·]?)
@@ -405,5 +419,57 @@ def Heap.run (pn : ParamNames) (h : Heap F) : List (Op F) → Option (Heap F)
     | none => none
 
 end machine
+
+/-! ### `FactorizedFluxModel.__call__` itself: profile evaluation of the referenced cells, unit
+conversion of every argument, `None` arguments, outer product -/
+
+section call
+variable [Add F] [Sub F] [Mul F] [Div F] [Neg F] [LE F] [DecidableLE F] [LT F] [DecidableLT F] [BEq F]
+  [OfNat F 0] [OfNat F 1] [OfNat F 2] [OfScientific F] [Pow F F] [Transc F]
+
+/-- spatial profile value at `(ra, dec)` (already in the profile's unit); `none`: not a spatial profile -/
+def Cell.evalS : Cell F → F × F → Option F
+  | .unityS, _ => some 1
+  | .point ra dec, (a, d) => some (if (a == ra) && (d == dec) then 1 else 0)
+  | _, _ => none
+
+/-- energy profile value -/
+def Cell.evalE : Cell F → F → Option F
+  | .unityE, _ => some 1
+  | .pl E0 γ, E => some (plCall E0 γ E)
+  | .cutoff E0 γ Ec, E => some (cutoffCall E0 γ Ec E)
+  | .logpar E0 α β, E => some (logparCall E0 α β E)
+  | _, _ => none
+
+/-- time profile value -/
+def Cell.evalT : Cell F → F → Option F
+  | .unityT _, _ => some 1
+  | .box w, t => some (boxCall w t)
+  | .gauss g, t => some (gaussCall g t)
+  | _, _ => none
+
+/-- values of one profile for an optional argument list: `None` → `np.array([1])` -/
+def evalArg {α : Type} (f : α → Option F) : Option (List α) → Option (List F)
+  | none => some [1]
+  | some xs => xs.mapM f
+
+/-- `FactorizedFluxModel.__call__(ra/dec, E, t, angle_unit, energy_unit, time_unit)` on heap object `i`
+(`refs = [spatial, energy, time]`); arguments `none` = Python `None`; `none` result = not a flux model /
+dangling reference. -/
+def Heap.call (h : Heap F) (i : Nat) (ang : Option (List (F × F))) (E t : Option (List F))
+    (uA uE uT : Option F) : Option (List (List (List F))) :=
+  match h[i]? with
+  | some (.ffm phi0 [s, e, tt]) =>
+    match h[s]?, h[e]?, h[tt]? with
+    | some cs, some ce, some ct =>
+      match evalArg (fun p : F × F => cs.evalS (conv p.1 uA, conv p.2 uA)) ang,
+            evalArg (fun x => ce.evalE (conv x uE)) E,
+            evalArg (fun x => ct.evalT (conv x uT)) t with
+      | some S, some Ev, some Tv => some (fluxOuter phi0 S Ev Tv)
+      | _, _, _ => none
+    | _, _, _ => none
+  | _ => none
+
+end call
 
 end Flux
